@@ -701,7 +701,7 @@ def run(ctx):
     for (n, k, c) in scopes:
         for inject in injections:
             for sf in ([False, True] if (thorough and inject is None) else [False]):
-                res, whole = enumerate_scope(ctx, n, k, c, sf, inject, ctx.scale(400, 600))
+                res, whole = enumerate_scope(ctx, n, k, c, sf, inject, ctx.scale(400, 1000))
                 total += len(res)
                 report.append(['%d items x %d tasks, concurrency %d, inject %s%s' % (n, k, c, inject, ', source raises' if sf else ''),
                                len(res), 'complete' if whole else 'capped'])
